@@ -175,6 +175,10 @@ def generate(rng, tier):
         case["scalar"] = {"val": float(rng.choice([4, 3, 0.5, -2, 7])), "unit": rng.choice(["s", "m", "", "g"]), "kind": rng.choice(["arr", "arr", "vec"]),
                           "route": rng.choice(["copy", "copy.copy", "deepcopy", "dg-deepcopy", "ds-deepcopy"]), "side": rng.choice(["copy", "orig"]),
                           "sym": rng.choice("+-*/"), "num": float(rng.choice([2, 4, 0.5, 3]))}
+    if rng.random() < 0.02:
+        # sizes at which libraries switch code paths (chunking, copies of non-contiguous buffers)
+        case["big"] = {"n": rng.choice([70000, 131073, 200000]), "view": rng.choice(["strided", "strided", "reversed", "plain", "column"]),
+                       "sym": rng.choice("+-*/"), "rel": rng.choice(["same", "compatible", "compatible", "number"]), "seed": rng.getrandbits(30)}
     return case
 
 
@@ -218,6 +222,51 @@ class Graph:
     def leaves(self, h):
         t, o = h
         return [o] if t == "arr" else list(self.vec[o]["comps"])
+
+
+def big_scenario(bg, osy, V, stats):
+    """The same contract at sizes where libraries switch to other code paths: x is a (strided, reversed, column or plain)
+    view of a parent with 10^5 elements, updated in place by a full-shape operand; x, the parent and the operand are
+    compared with a numpy model."""
+    op = {"op": "big", "big": bg}
+    stats.inc("probe.large_array_scenario=" + bg["view"])
+    try:
+        n = bg["n"]
+        g = np.random.default_rng(bg["seed"])
+        base = g.integers(1, 50, size=(2 * n, 3) if bg["view"] == "column" else 2 * n).astype(np.float64)
+        parent = osy.Array(values=base.copy(), unit="m")
+        sl = {"strided": (slice(None, None, 2),), "reversed": (slice(None, None, -2),), "plain": (slice(0, n),), "column": (slice(0, n), 1)}[bg["view"]]
+        x = parent[sl if len(sl) > 1 else sl[0]]
+        yv = g.integers(1, 9, size=n).astype(np.float64)
+        yunit = {"same": "m", "compatible": "cm", "number": None}[bg["rel"]]
+        if bg["sym"] in "+-" and yunit is None:
+            yunit = "m"
+        y = osy.Array(values=yv.copy(), unit=yunit) if yunit is not None else yv.copy()
+        f = {"m": 1.0, "cm": 0.01, None: 1.0}[yunit]
+        fn = {"+": np.add, "-": np.subtract, "*": np.multiply, "/": np.divide}[bg["sym"]]
+        model = base.copy()
+        model[sl if len(sl) > 1 else sl[0]] = fn(model[sl if len(sl) > 1 else sl[0]], yv * f)
+        r = OPS[bg["sym"]](x, y)
+        if r is not x:
+            V(0, op, "identity", {"inplace_returned_new_array": True})
+            return
+        got_x = np.asarray(x.values, dtype=float)
+        want_x = model[sl if len(sl) > 1 else sl[0]]
+        if got_x.shape != want_x.shape or not np.allclose(got_x, want_x, rtol=1e-12, atol=0):
+            i = int(np.argmax(~np.isclose(got_x, want_x, rtol=1e-12, atol=0))) if got_x.shape == want_x.shape else -1
+            V(0, op, "inplace-value", {"first_wrong": i, "got": float(got_x.ravel()[i]) if i >= 0 else None, "want": float(want_x.ravel()[i]) if i >= 0 else None, "n": n})
+            return
+        got_p = np.asarray(parent.values, dtype=float)
+        if not np.allclose(got_p, model, rtol=1e-12, atol=0):
+            V(0, op, "view-not-updated", {"n_wrong": int(np.sum(~np.isclose(got_p, model, rtol=1e-12, atol=0))), "n": n})
+            return
+        ymag = np.asarray(y.values if yunit is not None else y, dtype=float)
+        if not np.array_equal(ymag, yv) or (yunit is not None and y.unit != osy.units(yunit)):
+            V(0, op, "rhs-modified", {"n": n})
+    except HarnessError:
+        raise
+    except Exception as e:
+        V(0, op, "exception", {"error": f"{type(e).__name__}: {e}"[:300]})
 
 
 def scalar_scenario(sc, osy, V, stats):
@@ -293,6 +342,11 @@ def execute(case, stats):
 
     if case.get("scalar"):
         scalar_scenario(case["scalar"], osy, V, stats)
+        if viol:
+            res["signature"] = core.digest(case)[:20]
+            return res
+    if case.get("big"):
+        big_scenario(case["big"], osy, V, stats)
         if viol:
             res["signature"] = core.digest(case)[:20]
             return res
@@ -771,13 +825,18 @@ def execute(case, stats):
 
 
 def measure(case):
-    return (len(case["ops"]), int(bool(case.get("scalar"))), case["n"], len(core.dumps(case["ops"])))
+    return (len(case["ops"]), int(bool(case.get("scalar"))) + int(bool(case.get("big"))), case["n"], len(core.dumps(case["ops"])))
 
 
 def reductions(case, viol):
     if case.get("scalar"):
         c = dict(case)
         del c["scalar"]
+        yield c
+        yield dict(case, ops=[])
+    if case.get("big"):
+        c = dict(case)
+        del c["big"]
         yield c
         yield dict(case, ops=[])
     yield from list_reductions(case, "ops")
